@@ -13,7 +13,7 @@ pub use exec::{
     advance_clock, current, draw, join, last_park_spurious, now_ns, park, park_steps, peek_ns, set_ctx, spawn, stamp,
     steps, switch, take_probe_log, unpark, violation, yield_now,
 };
-pub use mon::{cs_enter, cs_leave, mem_read, mem_write, peer, publish, retire, unbounded_wait, wl_set, wl_teardown, CsEnterOnDrop};
+pub use mon::{cs_enter, cs_leave, mem_read, mem_write, peer, publish, retire, unbounded_wait, wl_register, wl_set, wl_teardown, wl_unregister, CsEnterOnDrop};
 pub use probe::probe;
 
 /// H2: parallelism as configured for this run (bypasses kanal's process-global cache)
